@@ -12,9 +12,10 @@ The proof is the postcondition `LexOK` of each of the 22 lexers (`Proofs/LexOK`)
 regenerated dispatch table that justify each lexer's assumption about its first byte
 (`dispatch_table_facts`, re-checked on every build), and induction over the scan.
 
-Not yet a theorem: "every token class is one of the documented class characters"
-(`class_alphabet_statement`; needs the class of every keyword-table value and of every `parseByte`
-byte); checked by the oracle. -/
+The last clause — every token class is one of the documented class characters — is part of the
+same theorem (`isClassU8 rt.tok.cat`): every lexer assigns a literal class, the class of a
+keyword-table value (table fact `keywords_valOK`), or, for `parseByte`, the byte itself, which the
+dispatch-table facts show to be a class character. The full statement of C16 is closed on the model. -/
 namespace LibInj.Properties.C16
 open LibInj LibInj.Sqli
 
@@ -23,7 +24,7 @@ theorem tokens_faithful (input : Bytes) (flags : Nat) :
       (∀ rt ∈ ts,
         rt.tok.val = (input.drop rt.tok.pos).take rt.tok.len ∧ rt.tok.val.length = rt.tok.len ∧ rt.tok.len ≤ 31 ∧
         rt.before ≤ rt.tok.pos ∧ rt.tok.pos + rt.tok.len ≤ rt.after ∧ rt.before < rt.after ∧ rt.after ≤ input.length ∧
-        rt.tok.cat ≠ 0) ∧
+        rt.tok.cat ≠ 0 ∧ isClassU8 rt.tok.cat = true) ∧
       Chained 0 ts ∧ ts.length ≤ input.length ∧ (input ≠ [] → sf.pos = input.length) :=
   rawTokens_faithful input flags
 
@@ -37,14 +38,10 @@ theorem every_lexer_ok (flags : Nat) (rest : Bytes) (c : UInt8) (h0 : rest[0]? =
     ∃ r, runP flags rest (dispatch c) = .ok r ∧ 1 ≤ r.next ∧ r.next ≤ rest.length ∧
       r.tok.val.length = r.tok.len ∧ r.tok.len ≤ 31 ∧ r.tok.pos + r.tok.len ≤ r.next ∧
       r.tok.val = (rest.drop r.tok.pos).take r.tok.len := by
-  obtain ⟨r, h1, a1, a2, ⟨a3, a4⟩, a5, a6⟩ := runP_ok flags rest c h0
+  obtain ⟨r, h1, a1, a2, ⟨a3, a4⟩, a5, a6, _⟩ := runP_ok flags rest c h0
   exact ⟨r, h1, a1, a2, a3, a4, a5, a6⟩
 
 theorem dispatch_table_facts (c : UInt8) : dispatchFact c = true := dispatch_facts c
-
-def class_alphabet_statement : Prop :=
-  ∀ (input : Bytes) (flags : Nat) (ts : List RawTok) (sf : State), rawTokens input flags = .ok (ts, sf) →
-    ∀ rt ∈ ts, rt.tok.cat ∈ ([107,85,66,69,116,102,110,49,118,115,111,38,99,65,40,41,123,125,46,44,58,59,84,63,88,70,92] : List UInt8)
 
 /-- non-vacuity: `1 or 'a` yields three tokens with the expected offsets -/
 example : (match rawTokens [49, 32, 111, 114, 32, 39, 97] 9 with
